@@ -286,7 +286,7 @@ def rule_rescale(ctx):
     stackers = {nf.name for nf in ctx.p.nested_funcs(f)
                 if any(isinstance(x, ast.Constant) and x.value == "stack"
                        for x in ast.walk(nf.node))}
-    stack_nodes, rescale, emax_name = [], None, None
+    stack_nodes, rescale, emax_name, rescale_pow = [], None, None, None
     for n in fl.cfg.nodes:
         if n.kind != "stmt" or n.ast is None:
             continue
@@ -303,6 +303,7 @@ def rule_rescale(ctx):
             if pw:
                 rescale = n
                 emax_name = pw[0].right.right.id
+                rescale_pow = pw[0]
     C.require(stack_nodes, "stacking step of gather_slices not recognised")
     key = ctx.key(f, "C19-RESCALE", "order")
     if rescale is None:
@@ -316,7 +317,22 @@ def rule_rescale(ctx):
         is_max = any(isinstance(v, ast.Call) and dotted(v.func) == "max" for v in la)
         before = all(s_.id in fl.cfg.reachable_from_succs(rescale.id) and
                      rescale.id not in fl.cfg.reachable_from_succs(s_.id) for s_ in stack_nodes)
-        if istup and before and is_max:
+        # the form of the rescale: mantissa * 10 ** (its own exponent - common exponent),
+        # with mantissa and exponent the two halves of one chunk
+        par = f.module.parents.get(rescale_pow)
+        form_ok = isinstance(par, ast.BinOp) and isinstance(par.op, ast.Mult) and \
+            isinstance(rescale_pow.right.left, ast.Name)
+        if form_ok:
+            other = par.left if par.right is rescale_pow else par.right
+            gen = rescale.ast.value.generators[0]
+            pairs = [t for t in ast.walk(gen.target) if isinstance(t, ast.Tuple) and len(t.elts) == 2
+                     and all(isinstance(x, ast.Name) for x in t.elts)]
+            form_ok = isinstance(other, ast.Name) and any(
+                p_.elts[0].id == other.id and p_.elts[1].id == rescale_pow.right.left.id for p_ in pairs)
+        if istup and before and is_max and not form_ok:
+            r.violation(key, C.loc(f, rescale.ast), "chunks are not brought to the common exponent as "
+                        "mantissa * 10 ** (exponent - emax): " + C.unparse(rescale.ast.value.value, 60))
+        elif istup and before and is_max:
             r.ok(key, C.loc(f, rescale.ast), "tuple chunks are rescaled to the largest exponent "
                  "before the stack")
         else:
@@ -335,6 +351,103 @@ def rule_rescale(ctx):
         else:
             r.violation(key2, C.loc(f, rets[0].ast), "the exponent return is not guarded by the "
                         "rescale")
+    return r
+
+
+SAFE_MAX = {"max", "amax", "nanmax"}
+SAFE_ABS = {"abs", "absolute", "fabs"}
+
+
+def _neg_inf(ctx, f, e, depth=0):
+    """Expression is the constant -inf."""
+    if isinstance(e, ast.Call) and dotted(e.func) == "float" and len(e.args) == 1 and \
+            isinstance(e.args[0], ast.Constant) and str(e.args[0].value).strip().lower() in (
+                "-inf", "-infinity"):
+        return True
+    if isinstance(e, ast.UnaryOp) and isinstance(e.op, ast.USub):
+        v = e.operand
+        if isinstance(v, ast.Call) and dotted(v.func) == "float" and len(v.args) == 1 and \
+                isinstance(v.args[0], ast.Constant) and str(v.args[0].value).strip().lower() in (
+                    "inf", "infinity", "+inf"):
+            return True
+        if (dotted(v) or "").split(".")[-1] in ("inf", "infty", "Inf", "Infinity", "PINF"):
+            return True
+    if (dotted(e) or "").split(".")[-1] == "NINF":
+        return True
+    if isinstance(e, ast.Name) and depth < 3:
+        la = ctx.r.local_assignments(f).get(e.id, [])
+        if la:
+            return all(_neg_inf(ctx, f, v, depth + 1) for v in la)
+        v = f.module.assigns.get(e.id)
+        if v is not None:
+            vals = v if isinstance(v, list) else [v]
+            return all(_neg_inf(ctx, f, getattr(x, "value", x), depth + 1) for x in vals)
+    return False
+
+
+def rule_scale(ctx):
+    """What is divided out of every intermediate is its largest magnitude - a
+    reduction that cannot overflow or underflow where the entries themselves are
+    representable and that bounds the mantissa by one; and an exactly-zero
+    intermediate is reported with the exponent that is neutral for the exponent-aware
+    adder (-inf), so that it never sets the common exponent of a sum or stack."""
+    r = RuleResult("C19-SCALE", "the stripped scale is max|x|; a zero result carries exponent -inf", 2)
+    f = ctx.p.func(C.CONTRACT, "Contractor.__call__")
+    fl = ctx.flow(f)
+    divs = []
+    for n in walk_local(f.node):
+        if isinstance(n, ast.AugAssign) and isinstance(n.op, ast.Div) and C.enclosing_loops(f, n):
+            divs.append((n, n.value))
+        elif isinstance(n, ast.Assign) and isinstance(n.value, ast.BinOp) and \
+                isinstance(n.value.op, ast.Div) and isinstance(n.targets[0], ast.Name) and \
+                isinstance(n.value.left, ast.Name) and n.value.left.id == n.targets[0].id and \
+                C.enclosing_loops(f, n):
+            divs.append((n, n.value.right))
+    C.require(divs, "normalisation `p_array / factor` in Contractor.__call__ not found")
+    dstmt, factor = divs[-1]
+    key = ctx.key(f, "C19-SCALE", "measure")
+    exprs = [factor]
+    if isinstance(factor, ast.Name):
+        cn = fl.cfg.containing(dstmt, f.module.parents)
+        exprs = [d.value for d in fl.defs_reaching(factor.id, cn.id) if d.value is not None]
+    C.require(exprs, "definition of the scale factor not found")
+    bad = None
+    for e in exprs:
+        ops = []
+        for x in ast.walk(e):
+            if isinstance(x, ast.Call):
+                d = dotted(x.func)
+                if d == "do" and x.args and isinstance(x.args[0], ast.Constant):
+                    ops.append(str(x.args[0].value))
+                elif d in ("float", "abs", "max"):
+                    ops.append(d)
+                else:
+                    ops.append(d or C.unparse(x.func, 30))
+        kinds = set(ops) - {"float"}
+        if not (kinds & SAFE_MAX and kinds & SAFE_ABS and kinds <= SAFE_MAX | SAFE_ABS):
+            bad = (e, sorted(kinds))
+    if bad:
+        r.violation(key, C.loc(f, bad[0]), f"the factor divided out of each intermediate is computed "
+                    f"with {bad[1]}, not max(abs(.)): a reduction that squares or sums entries "
+                    "overflows/underflows although every entry is representable, and anything but "
+                    "the largest magnitude does not bound the mantissa", expr=C.unparse(bad[0], 100))
+    else:
+        r.ok(key, C.loc(f, exprs[0]), "factor = max(abs(intermediate))")
+    # zero sentinel
+    key2 = ctx.key(f, "C19-SCALE", "zero")
+    rets = [n for n in walk_local(f.node) if isinstance(n, ast.Return)
+            and isinstance(n.value, ast.Tuple) and len(n.value.elts) == 2
+            and isinstance(n.value.elts[0], ast.Constant) and n.value.elts[0].value == 0]
+    if not rets:
+        r.exempt(key2, f.loc, "no early return for an exactly-zero intermediate (check_zero removed): "
+                 "nothing to check")
+    for rt in rets:
+        if _neg_inf(ctx, f, rt.value.elts[1]):
+            r.ok(key2, C.loc(f, rt), "zero result returned as (0, -inf): neutral for max() in the adder")
+        else:
+            r.violation(key2, C.loc(f, rt), f"an exactly-zero result is returned with exponent "
+                        f"`{C.unparse(rt.value.elts[1])}` instead of -inf: in a sum or stack of "
+                        "slices it sets the common exponent and the non-zero slices underflow to 0")
     return r
 
 
@@ -400,4 +513,4 @@ def rule_option(ctx):
     return r
 
 
-RULES = [rule_combine, rule_pair, rule_adder, rule_rescale, rule_option]
+RULES = [rule_combine, rule_pair, rule_adder, rule_rescale, rule_scale, rule_option]
